@@ -10,6 +10,7 @@ position; `clone(location)` re-positions on the same buffer).  The recursion is 
 the "pointers must point strictly backwards" rule and is *the* reason decoding terminates.
 -/
 import HickoryVerif.Model.Name
+set_option linter.unusedVariables false
 
 namespace HickoryVerif
 namespace Name
@@ -20,7 +21,7 @@ def readLabels (buf : Bytes) (pos nameStart : Nat) (ptrMax : Option Nat) (acc : 
     Outcome (Name × Nat) :=
   -- "this protects against overlapping labels when chasing pointers"
   if (match ptrMax with | some m => decide (pos ≥ m) | none => false) then .err else
-  match h : buf[pos]? with
+  match buf[pos]? with
   | none => .err                                   -- InsufficientBytes
   | some b =>
     if b = 0 then
